@@ -73,7 +73,7 @@ def check(ctx):
         if tab is None:
             ctx.undecided("C01 TABLE", f"{cls.qualname}", cls.module.relpath, "cost class in the COSTS registry without a line in the frozen parameter table (unspecified instance)")
             continue
-        for mode in ("optim", "fixed-array", "fixed-number"):
+        for mode in ("optim", "fixed-array", "fixed-number") + _mixed_modes(tab):
             key = f"{cls.name}|{mode}"
             ctx.guard("C01.a NF-KERNEL", key, lambda: check_kernel(ctx, cls, tab, mode, n_sinks), cls.module.relpath)
             n_kernels += 1
@@ -159,13 +159,24 @@ def _idxs(idx):
 # ------------------------------------------------------------------ NF-KERNEL
 
 
+def _mixed_modes(tab):
+    """fixed parameters of several components: each component may be a number while the others are per-column arrays (the
+    quantifier names scalar or per-column mean / variance, in every combination)"""
+    cs = tab["components"]
+    return tuple(f"fixed-mix:{c}" for c in cs) if len(cs) > 1 else ()
+
+
+def _is_number(mode, c):
+    return mode == "fixed-number" or mode == f"fixed-mix:{c}"
+
+
 def make_param(ex, tab, mode, qlen=None, only=None):
     """only: give the odd length qlen to this component alone (the others have the data's width)"""
     if mode == "optim":
         return []
     comps = []
     for c in tab["components"]:
-        if mode == "fixed-number":
+        if _is_number(mode, c):
             v = Num(sym(c), (), "float", "number", meta={"role": c})
             ex.atom_shapes[Atom("sym", c).key] = ()
         else:
@@ -306,7 +317,7 @@ def _short(parts):
 def _spec_params(sx, tab, mode):
     out = []
     for c in tab["components"]:
-        if mode == "fixed-number":
+        if _is_number(mode, c):
             if c == "cov":
                 out.append(Num(sym(c) * app("eye", lift(Pdim)), (Pdim, Pdim), "float"))
             else:
